@@ -572,29 +572,79 @@ def signature(case, impl, models):
                         (p[0] >> (128 - nb) != base >> (128 - nb) if nb < 128 else p[0] != base):
                     return "prefix.prefixToIndex:foreign-prefix-aliases-an-index"
         return "unexplained-pd"
-    # pool / registry: a held address that is not assignable was released
-    held = set()
-    geoms = []
+    # pool / registry: an address that was reserved although the pool may not hand it out
+    # (excluded, gateway, out of range) was released afterwards
     if head[0] == "pool":
-        geoms = [pool_geometry(head)]
-    rel = False
+        geoms = {"": pool_geometry(head)}
+    else:
+        geoms = reg_geometries(head)
+
+    def unassignable(g, a):
+        lo, hi, ex = g
+        return not (a[0] == lo[0] and lo[1] <= a[1] <= hi[1]) or a in ex
+
+    def inrange(g, a):
+        lo, hi, ex = g
+        return a[0] == lo[0] and lo[1] <= a[1] <= hi[1]
+    held = set()          # (pool key or "", address) reserved while unassignable there
     for op in ops:
-        if op[0] in "RP":
-            a = parse_addr(op[1:].split(",")[-1])
-            if a is not None:
-                held.add(a)
-        elif op[0] in "LI":
-            a = parse_addr(op[1:].split(",")[-1])
-            if a in held:
-                if head[0] != "pool":
-                    rel = True
-                else:
-                    lo, hi, ex = geoms[0]
-                    if not (a[0] == lo[0] and lo[1] <= a[1] <= hi[1]) or a in ex:
-                        rel = True
-    if rel:
-        return "pool.Release:unassignable-address-returned-to-free-list"
+        q = op[1:].split(",")
+        a = parse_addr(q[-1]) if op[0] in "RPLI" else None
+        if a is None:
+            continue
+        if op[0] == "R" or (op[0] == "P" and geoms.get(q[1]) is None):
+            for k, g in geoms.items():
+                if g and (head[0] == "pool" or inrange(g, a)) and unassignable(g, a):
+                    held.add((k, a))
+        elif op[0] == "P":
+            g = geoms[q[1]]
+            if g and unassignable(g, a):
+                held.add((q[1], a))
+        elif op[0] == "L":
+            k = "" if head[0] == "pool" else q[0]
+            if (k, a) in held:
+                return "pool.Release:unassignable-address-returned-to-free-list"
+        elif op[0] == "I" and any(x == a for _, x in held):
+            return "pool.Release:unassignable-address-returned-to-free-list"
     return "unexplained-pool"
+
+
+def reg_geometries(head):
+    """key -> (lo, hi, excluded) of the allocator created for it (first pool of that name wins), or None"""
+    v6, profiles = parse_reg(head)
+    fam = 6 if v6 else 4
+    width = 128 if v6 else 32
+    out = {}
+    for pf, pr in profiles.items():
+        for q in pr["pools"]:
+            key = "%s/%s" % (pf, q["name"])
+            if key in out and out[key] is not None:
+                continue
+            if q["net"] == "bad" or "junk" in (q["lo"], q["hi"]):
+                out.setdefault(key, None)
+                continue
+            nb, bits = q["net"].split("/")
+            m = 1 << (width - int(bits))
+            first = (parse_addr(nb)[1] // m) * m
+            lo = (fam, first + 1) if q["lo"] == "-" else parse_addr(q["lo"])
+            hi = (fam, first + m - 2) if q["hi"] == "-" else parse_addr(q["hi"])
+            gw = q["gw"] if (v6 or q["gw"] != "-") else pr["gw"]
+            ex = set()
+            if gw not in ("-", "junk"):
+                ex.add(parse_addr(gw))
+            if not v6:
+                for j in range(0, len(q["ex"]), 2):
+                    a, b = q["ex"][j], q["ex"][j + 1]
+                    if "junk" in (a, b):
+                        continue
+                    if b == "-":
+                        ex.add(parse_addr(a))
+                    else:
+                        pa, pb = parse_addr(a), parse_addr(b)
+                        if pa[0] == pb[0] and pb[1] - pa[1] < 100000:
+                            ex.update((pa[0], n) for n in range(pa[1], pb[1] + 1))
+            out[key] = (lo, hi, ex)
+    return out
 
 
 def nontrivial(case, out):
@@ -625,7 +675,7 @@ def shrink(case):
 
 def distribution(cases, impl):
     d = {"pool": 0, "pd": 0, "reg4": 0, "reg6": 0, "ops": 0, "alloc_ok": 0, "exhausted": 0, "conflict": 0,
-         "reserve": 0, "release": 0, "setdir": 0, "contains_true": 0, "nilalloc": 0, "max_ops": 0}
+         "contains_true": 0, "nilalloc": 0, "max_ops": 0}
     opk = {}
     for c, o in zip(cases, impl):
         head, ops = split_case(c)
